@@ -5,7 +5,7 @@ P(k) == [t |-> "ph", s |-> k]
 Templates == {<<L("plain")>>, <<L("u/"), P("a")>>, <<L("u/"), P("a"), L("/p/"), P("b")>>, <<P("a"), P("a")>>,
               <<P("a"), L("/"), P("b"), L("/"), P("c")>>, <<P("a"), L("/"), P("b"), L("/"), P("c"), L("/"), P("a")>>}
 Keys == {"a", "b", "c", "x"}
-Vals == {"1", "v-w", "Z9"}
+Vals == {"1", "v-w", "a/b"}                \* "a/b": a value that spans two path segments is inserted verbatim
 KeyOrder == <<"a", "b", "c", "x">>
 PairsOf(D, f) == LET ks == SelectSeq(KeyOrder, LAMBDA k : k \in D) IN [i \in DOMAIN ks |-> <<ks[i], f[ks[i]]>>]
 ParamMaps == {PairsOf(D, f) : D \in SUBSET Keys, f \in [Keys -> Vals]}
